@@ -59,7 +59,7 @@ func Compile(grammar *Grammar, opts Options) (*Tables, error) {
 	}
 
 	if opts.MinimizeDFA {
-		minimize(c.out, grammar)
+		minimize(c.out, grammar, c.empty)
 	}
 	if opts.Optimize && c.out.UsedLADepth > 0 {
 		// The displacement encoding cannot represent the multi-token lookahead automaton.
